@@ -265,7 +265,6 @@ def property_attributes_ob(v):
     else:
         G.set_text_attrs(v, prop, "p", G.PROP_TEXT_ATTRS, 1, which=(first,))
         prop.uncertainty = v.pick("uncertainty", [None, 0, 0.0, 1.5, -2, 11])
-    v.known("F-C01-blank-name", blank_required(doc))
     xml_roundtrip(v, doc)
 
 
@@ -289,7 +288,6 @@ def cardinalities_ob(v):
         sec.sec_cardinality = card
     else:
         sec.prop_cardinality = card
-    v.known("F-C01-blank-name", blank_required(doc))
     xml_roundtrip(v, doc)
 
 
@@ -323,7 +321,6 @@ def section_document_attributes_ob(v):
         G.set_text_attrs(v, sec, "s", G.SEC_TEXT_ATTRS, 1, which=(focus - 3,))
     if focus == 8 and v.bool("sub"):
         odml.Section(name="sub", type="t", parent=sec, definition=v.opt_str("sub.definition", 1))
-    v.known("F-C01-blank-name", blank_required(doc))
     xml_roundtrip(v, doc)
 
 
@@ -348,7 +345,6 @@ def values_ob(v):
     v.assume(len(prop._values) == count)
     v.known("F-C02-tuple-delimiters", G.tuple_delimiter_member(prop))
     v.label("empty" if count == 0 else ("multi" if count == 2 else "single"))
-    v.known("F-C01-blank-name", blank_required(doc))
     xml_roundtrip(v, doc)
 
 
@@ -359,7 +355,6 @@ def tree_ob(v):
     """Tree shape, child order, ids and names survive XML save and load."""
     _mute(v)
     uni = C.build_universe(v, 1, 2, 2, name_len=1, id_names=True)
-    v.known("F-C01-blank-name", blank_required(uni.docs[0]))
     xml_roundtrip(v, uni.docs[0])
 
 
@@ -495,7 +490,6 @@ def foreign_xml_ob(v):
         if v.bool("sub"):
             odml.Section(name="sub", type="t", parent=sec)
     v.assume(all(lxmlstub.xml_compatible(s) for s in _doc_strings(doc)))
-    v.known("F-C01-blank-name", blank_required(doc))
     tree, reverse = reference_xml(v, doc)
     lenient = v.bool("lenient")
     from odml.tools import xmlparser
